@@ -674,3 +674,5 @@ PROPS["C11"]["rule"] += " A dial takes 10 ms, 40 ms, 2 s or 20 s."
 PROPS["C07"]["rule"] += " One latency case in four has transmissions of 500 ms - 1 ns, 500 ms, 600 ms, 3 s, 3 s + 1 ns or 20 s."
 PROPS["C06"]["rule"] += " One random history in four has slow transmissions (1 ns .. 10 s, incl. 3 s - 1 ns, 3 s, 3 s + 1 ns; to all-nodes, to hosts, or both)."
 PROPS["C08"]["rule"] += " State reads take up to 4 s."
+
+PROPS["C01"]["rule"] += " Advertiser half: in one case in three the interface is re-created between two dials and reports another hardware address (another 48-bit one, none, or an 8-byte one on odd dials) and index: each RA carries what its own connection's dial reported."
